@@ -353,7 +353,40 @@ func runC11(r *simrt.Run, tier Tier) Outcome {
 		body := fmt.Sprintf("%s(%s)", e.name, strings.Join(vars, ", "))
 		var rows [][]tyE
 		var rule string
-		switch r.Choose(8, "c11.rule.kind") {
+		switch r.Choose(11, "c11.rule.kind") {
+		case 8: // join of two predicates on the first column (the variable is already bound when the second premise is met)
+			e2 := edb[r.Choose(len(edb), "c11.rule.edb2")]
+			rest := func(p pred, pre string) string {
+				out := ""
+				for i := 1; i < len(p.rows[0]); i++ {
+					out += fmt.Sprintf(", %s%d", pre, i)
+				}
+				return out
+			}
+			for _, row := range e.rows {
+				rows = append(rows, []tyE{row[0]})
+			}
+			if r.Bool("c11.join.declsecond") {
+				rows = nil
+				for _, row := range e2.rows {
+					rows = append(rows, []tyE{row[0]})
+				}
+			}
+			rule = fmt.Sprintf("%s(X) :- %s(X%s), %s(X%s).", name, e.name, rest(e, "U"), e2.name, rest(e2, "W"))
+		case 9, 10: // prefix filter, positive or negated
+			for _, row := range e.rows {
+				rows = append(rows, []tyE{row[0]})
+			}
+			pfx := []string{"/fruit", "/fruit/x", "/veg", "/fruity", "/fruit/apple"}[r.Choose(5, "c11.prefix.which")]
+			neg := ""
+			if r.Bool("c11.prefix.neg") {
+				neg = "!"
+			}
+			others := ""
+			for i := 1; i < ar; i++ {
+				others += ", _"
+			}
+			rule = fmt.Sprintf("%s(X) :- %s(X%s), %s:match_prefix(X, %s).", name, e.name, others, neg, pfx)
 		case 0: // copy
 			rows = e.rows
 			rule = fmt.Sprintf("%s(%s) :- %s.", name, strings.Join(vars, ", "), body)
